@@ -89,7 +89,7 @@ fn main() {
     }
 
     // ---- (c) threaded stress, thorough only
-    if ctx.is_thorough() {
+    {
         let rounds = ctx.budget(64, 1600);
         let mut srng = ctx.rng("stress");
         for _ in 0..rounds {
